@@ -479,7 +479,80 @@ pub fn run(tier: Tier) -> Report {
     }
     rep.sample(json!({"shards":2,"ops":["AddTrack(1, true)","Add(3, 1)","MergeOwned(1, 3, 2)"]}));
     noblock_schedules(&rep, tier);
+    concurrent_lookups(&rep, tier);
     rep
+}
+
+/// Engine B: two threads that share one store issue lookups (`lookup(&self)`) with different predicates at the
+/// same time; each must get exactly the tracks that satisfy ITS predicate, under every schedule.
+fn concurrent_lookups(rep: &Report, tier: Tier) {
+    let mut total = 0u64;
+    for (shards, fine) in [(1usize, false), (2, false), (3, false), (1, true), (2, true)] {
+        // every departure from the default schedule counts (delay bounding): three caller threads plus the shard
+        // workers have too many free switches for preemption bounding; each scenario has its own wall slice
+        let deadline = Some(std::time::Instant::now() + std::time::Duration::from_secs_f64(tier.pick(1.5, 60.0)));
+        let cfg = if fine { sched::ExploreCfg { mode: sched::Mode::Fine, count_all_deviations: true, bound: tier.pick(1, 2), deadline, ..Default::default() } } else { sched::ExploreCfg { count_all_deviations: true, bound: tier.pick(2, 4), deadline, ..Default::default() } };
+        let outcomes: Mutex<BTreeMap<String, u64>> = Mutex::new(BTreeMap::new());
+        let stats = sched::explore(
+            &cfg,
+            move || {
+                let mut store: Guarded<HStore> = Guarded::new(TrackStoreBuilder::new(shards).default_attributes(HAttrs::default()).metric(HMetric::default()).notifier(HNotifier).build());
+                let mut model = Model::new();
+                for op in [Op::AddTrack(1, true), Op::AddTrack(2, false), Op::AddTrack(3, false), Op::Add(2, 1)] {
+                    step(&mut store, &mut model, &op, shards).unwrap();
+                }
+                let queries = [HLookup::HasClass(1), HLookup::HasClass(0), HLookup::All];
+                let expect: Vec<Vec<(u64, u8)>> = queries
+                    .iter()
+                    .map(|q| {
+                        let mut l: Vec<(u64, u8)> = store.lookup(q.clone()).iter().map(|(i, s)| (*i, status_code(s))).collect();
+                        l.sort();
+                        l
+                    })
+                    .collect();
+                let shared = std::sync::Arc::new(store);
+                let mut hs = vec![];
+                for q in queries.iter().skip(1).cloned() {
+                    let st = shared.clone();
+                    hs.push(shuttle::thread::spawn(move || {
+                        let mut l: Vec<(u64, u8)> = st.lookup(q).iter().map(|(i, s)| (*i, status_code(s))).collect();
+                        l.sort();
+                        l
+                    }));
+                }
+                let mut got: Vec<Vec<(u64, u8)>> = vec![{
+                    let mut l: Vec<(u64, u8)> = shared.lookup(queries[0].clone()).iter().map(|(i, s)| (*i, status_code(s))).collect();
+                    l.sort();
+                    l
+                }];
+                for h in hs {
+                    got.push(h.join().unwrap());
+                }
+                (expect, got)
+            },
+            |x| match &x.outcome {
+                sched::Outcome::Done((expect, got)) => {
+                    *outcomes.lock().unwrap().entry(format!("{got:?}")).or_insert(0) += 1;
+                    if expect != got {
+                        rep.violation(Violation {
+                            key: "lookup/concurrent-lookups-mixed-up".into(),
+                            what: format!("three overlapping lookups (has class 1 / has class 0 / all) returned {got:?}; each alone returns {expect:?}"),
+                            replay: json!({"engine":"B","scenario":"concurrent lookups","shards":shards,"granularity":if fine { "fine" } else { "macro" },"schedule":x.schedule_json()}),
+                        });
+                    }
+                }
+                sched::Outcome::Machinery(m) => machinery_error(m),
+                other => rep.violation(Violation { key: "lookup/panic-or-deadlock".into(), what: format!("{other:?}").chars().take(300).collect(), replay: json!({"engine":"B","scenario":"concurrent lookups","shards":shards,"schedule":x.schedule_json()}) }),
+            },
+        );
+        total += stats.executions;
+        rep.add(stats.executions, stats.decision_points, stats.executions, 0);
+        if stats.truncated {
+            rep.cap_hit(&format!("concurrent lookups, {shards} shard(s){}: bound {} not completed within its wall slice ({} schedules)", if fine { ", fine" } else { "" }, stats.bound, stats.executions));
+        }
+        rep.extra(&format!("concurrent_lookups_shards{shards}{}", if fine { "_fine" } else { "" }), json!({"schedules":stats.executions,"max_decision_points":stats.max_points,"bound":stats.bound,"distinct_outcomes":outcomes.lock().unwrap().len(),"truncated":stats.truncated}));
+    }
+    rep.extra("concurrent_lookup_schedules_total", json!(total));
 }
 
 #[derive(Clone, Debug, Default, PartialEq, Eq, Hash)]
